@@ -8,6 +8,7 @@
 //@ gsubst `Infallible` => `VxInfallible` :: R11 stub type (opaque error value)
 //@ gsubst `std::io::SeekFrom` => `SeekFrom` :: R11 stub enum for std::io::SeekFrom (same variants)
 //@ gsubst `merklehash::compute_data_hash` => `compute_data_hash` :: R11 stub for the merklehash dependency (uninterpreted chunk hash)
+//@ gsubst `size_of_val` => `vx_size_of_val` :: R11 stub for std::mem::size_of_val (sizes of the argument types used: u32, [u8;16])
 //@ gsubst `u32::from_le_bytes` => `vx_u32_from_le_bytes` :: R11 stub for std u32::from_le_bytes (anonymous-const array type cannot be named in assume_specification; value unconstrained)
 //@ gsubst `DataHash` => `MerkleHash` :: `merklehash::MerkleHash` is an alias of `DataHash` (merklehash/src/lib.rs:49)
 #![allow(non_snake_case, unused)]
@@ -138,7 +139,8 @@ spec fn footer_tables_ok(cas: CasObject) -> bool {
 // ==== the footer parser CasObjectInfoV1::deserialize under contract: table lengths, arithmetic, bounded preallocation =========
 // countio::Counter around the reader: only the running byte count is modelled (the parsed values are unconstrained, i.e. the
 // proof holds for every byte string)
-pub struct Counter { pub ghost n: nat, pub ghost avail: nat }
+// (`data` = the bytes that will come through the counter: unconstrained, so every value read through it is arbitrary)
+pub struct Counter { pub ghost n: nat, pub ghost avail: nat, pub ghost data: Seq<u8> }
 impl Counter {
     #[verifier::external_body]
     fn new<R: Read>(r: &mut R) -> (c: Counter)
@@ -150,8 +152,8 @@ impl Counter {
     fn reader_bytes(&self) -> (r: usize) requires self.n <= usize::MAX ensures r == self.n { unimplemented!() }
 }
 impl Read for Counter {
-    closed spec fn bytes(&self) -> Seq<u8> { Seq::empty() }
-    closed spec fn pos(&self) -> nat { 0 }
+    open spec fn bytes(&self) -> Seq<u8> { self.data }
+    open spec fn pos(&self) -> nat { self.n }
     open spec fn nread(&self) -> nat { self.n }
     open spec fn navail(&self) -> nat { self.avail }
     #[verifier::external_body]
@@ -160,17 +162,21 @@ impl Read for Counter {
 // utils::serialization_utils read helpers: Ok ==> exactly that many bytes were consumed
 #[verifier::external_body]
 fn read_bytes<R: Read>(reader: &mut R, val: &mut [u8]) -> (r: Result<(), IoError>)
-    ensures final(val)@.len() == old(val)@.len(), final(reader).navail() == old(reader).navail(),
+    ensures final(val)@.len() == old(val)@.len(), final(reader).navail() == old(reader).navail(), final(reader).bytes() == old(reader).bytes(),
         r is Ok ==> final(reader).nread() == old(reader).nread() + old(val)@.len() && final(reader).nread() <= final(reader).navail() { unimplemented!() }
 #[verifier::external_body]
 fn read_u8<R: Read>(reader: &mut R) -> (r: Result<u8, IoError>)
-    ensures final(reader).navail() == old(reader).navail(), r is Ok ==> final(reader).nread() == old(reader).nread() + 1 && final(reader).nread() <= final(reader).navail() { unimplemented!() }
+    ensures final(reader).navail() == old(reader).navail(), final(reader).bytes() == old(reader).bytes(), r is Ok ==> final(reader).nread() == old(reader).nread() + 1 && final(reader).nread() <= final(reader).navail() { unimplemented!() }
 #[verifier::external_body]
 fn read_u32<R: Read>(reader: &mut R) -> (r: Result<u32, IoError>)
-    ensures final(reader).navail() == old(reader).navail(), r is Ok ==> final(reader).nread() == old(reader).nread() + 4 && final(reader).nread() <= final(reader).navail() { unimplemented!() }
+    ensures final(reader).navail() == old(reader).navail(), final(reader).bytes() == old(reader).bytes(),
+        r matches Ok(v) ==> final(reader).nread() == old(reader).nread() + 4 && final(reader).nread() <= final(reader).navail()
+            // the value is a function of the 4 bytes at the reader's position (little-endian decode, uninterpreted here)
+            && v == spec_u32_at(old(reader).bytes(), old(reader).pos()) { unimplemented!() }
+pub uninterp spec fn spec_u32_at(bytes: Seq<u8>, pos: nat) -> u32;
 #[verifier::external_body]
 fn read_hash<R: Read>(reader: &mut R) -> (r: Result<MerkleHash, IoError>)
-    ensures final(reader).navail() == old(reader).navail(), r is Ok ==> final(reader).nread() == old(reader).nread() + 32 && final(reader).nread() <= final(reader).navail() { unimplemented!() }
+    ensures final(reader).navail() == old(reader).navail(), final(reader).bytes() == old(reader).bytes(), r is Ok ==> final(reader).nread() == old(reader).nread() + 32 && final(reader).nread() <= final(reader).navail() { unimplemented!() }
 
 // footer geometry (same definitions as in U-XORBIDX)
 pub open spec fn hash_section_len(nh: nat) -> nat { 7 + 1 + 4 + 32 * nh }
@@ -268,12 +274,14 @@ impl CasObjectInfoV1 {
 //@ loop 1
             invariant
                 reader.bytes() == old(reader).bytes(),
+                r.n <= r.avail, r.avail == 0 || old(reader).pos() + r.avail <= old(reader).bytes().len(), old(reader).bytes().len() <= u32::MAX,
                 s.ident == CAS_OBJECT_FORMAT_IDENT, s.version == CAS_OBJECT_FORMAT_VERSION, s.ident_hash_section == CAS_OBJECT_FORMAT_IDENT_HASHES, s.hashes_version == CAS_OBJECT_FORMAT_HASHES_VERSION,
                 s.chunk_hashes@.len() == vx_u, s.chunk_boundary_offsets@.len() == 0, s.unpacked_chunk_offsets@.len() == 0,
                 r.n == hash_section_begin_byte_offset + 12 + 32 * vx_u, hash_section_begin_byte_offset == 40,
 //@ loop 2
             invariant
                 reader.bytes() == old(reader).bytes(),
+                r.n <= r.avail, r.avail == 0 || old(reader).pos() + r.avail <= old(reader).bytes().len(), old(reader).bytes().len() <= u32::MAX,
                 s.ident == CAS_OBJECT_FORMAT_IDENT, s.version == CAS_OBJECT_FORMAT_VERSION, s.ident_hash_section == CAS_OBJECT_FORMAT_IDENT_HASHES, s.hashes_version == CAS_OBJECT_FORMAT_HASHES_VERSION,
                 s.ident_boundary_section == CAS_OBJECT_FORMAT_IDENT_BOUNDARIES, s.boundaries_version == CAS_OBJECT_FORMAT_BOUNDARIES_VERSION,
                 s.chunk_hashes@.len() == num_chunks_2, num_chunks_2 == num_chunks_3, s.chunk_boundary_offsets@.len() == vx_u, s.unpacked_chunk_offsets@.len() == 0,
@@ -282,11 +290,41 @@ impl CasObjectInfoV1 {
 //@ loop 3
             invariant
                 reader.bytes() == old(reader).bytes(),
+                r.n <= r.avail, r.avail == 0 || old(reader).pos() + r.avail <= old(reader).bytes().len(), old(reader).bytes().len() <= u32::MAX,
                 s.ident == CAS_OBJECT_FORMAT_IDENT, s.version == CAS_OBJECT_FORMAT_VERSION, s.ident_hash_section == CAS_OBJECT_FORMAT_IDENT_HASHES, s.hashes_version == CAS_OBJECT_FORMAT_HASHES_VERSION,
                 s.ident_boundary_section == CAS_OBJECT_FORMAT_IDENT_BOUNDARIES, s.boundaries_version == CAS_OBJECT_FORMAT_BOUNDARIES_VERSION,
                 s.chunk_hashes@.len() == num_chunks_2, num_chunks_2 == num_chunks_3, s.chunk_boundary_offsets@.len() == num_chunks_3, s.unpacked_chunk_offsets@.len() == vx_u,
                 hash_section_begin_byte_offset == 40, boundary_section_begin_byte_offset == 52 + 32 * num_chunks_2,
                 r.n == boundary_section_begin_byte_offset + 12 + 4 * num_chunks_3 + 4 * vx_u,
+//@ end
+}
+
+// ---- the section reader that CONSUMES boundary_section_offset_from_end (deserialize_only_boundaries_section) -----------------------------
+#[verifier::external_body]
+fn read_u32s<R: Read>(reader: &mut R, vs: &mut [u32]) -> (r: Result<(), IoError>)
+    ensures final(vs)@.len() == old(vs)@.len(), final(reader).navail() == old(reader).navail(), final(reader).bytes() == old(reader).bytes(),
+        r is Ok ==> final(reader).nread() == old(reader).nread() + 4 * old(vs)@.len() && final(reader).nread() <= final(reader).navail() { unimplemented!() }
+// size_of_val for the two argument types used here (see U-XORBIDX)
+pub trait VxSized { spec fn vx_size() -> nat; }
+impl VxSized for u32 { open spec fn vx_size() -> nat { 4 } }
+impl VxSized for [u8; 16] { open spec fn vx_size() -> nat { 16 } }
+#[verifier::external_body]
+pub fn vx_size_of_val<T: VxSized>(x: &T) -> (r: usize) ensures r == T::vx_size() { std::mem::size_of_val(x) }
+impl CasObjectInfoV1 {
+//@ extract cas_object/src/cas_object_format.rs in `impl CasObjectInfoV1` fn deserialize_only_boundaries_section
+//@ ret ret
+//@ rules R15
+//@ subst `countio::Counter::new(reader)` => `Counter::new(reader)` :: R11 stub type for the countio dependency
+//@ subst `s.chunk_hashes.is_empty()` => `s.chunk_hashes@.len() == 0` :: spec rendering of the exec call inside the R2 obligation (`debug_assert!(s.chunk_hashes.is_empty())`)
+//@ contract
+        requires old(reader).bytes().len() <= u32::MAX,
+            // (P3) the untrusted on-wire `boundary_section_offset_from_end` (the u32 stored 24 bytes before the end) must leave room for the
+            // `+= 4`: NOT guaranteed for arbitrary input -- see notes (finding, replayed)
+            old(reader).bytes().len() >= 24 ==> spec_u32_at(old(reader).bytes(), (old(reader).bytes().len() - 24) as nat) + 4 <= u32::MAX,
+        ensures
+            final(reader).bytes() == old(reader).bytes(),
+            /*@C07*/ ret matches Ok((s, n)) ==> s.chunk_boundary_offsets@.len() == s.num_chunks && s.unpacked_chunk_offsets@.len() == s.num_chunks
+                && s.boundary_section_offset_from_end == boundary_section_len(s.num_chunks as nat, s.num_chunks as nat),
 //@ end
 }
 
